@@ -20,7 +20,7 @@ BINS = [b for b in ["h_outbound", "h_payflow", "h_paysched"] if os.path.exists(o
 LEVEL = "proof"
 MANIFEST = {
     "category": "proof",
-    "text": "Coq theorems, by induction over ALL operation lists and interleavings of payment ids, about a transliterated model of OutboundPayments (per entry lifetime at most one of PaymentSent|PaymentFailed, never contradicted, PaymentSent only from a claim with that preimage and with the entry's amount/fee, PaymentFailed only if no claim hit the entry, drained payments terminate, duplicate ids refused, removal only by PaymentFailed or the idempotency timeout, Fulfilled snapshots never fail after restart, a path whose send returned Ok or MonitorUpdateInProgress keeps its part, no PaymentFailed while a part is pending); the model is tied to the code on every run by op-for-op differential execution of the real OutboundPayments (send results Ok / hard error / MonitorUpdateInProgress mixed), by scripted end-to-end scenarios and by a seeded random scheduler on real ChannelManagers and ChannelMonitors (2-4 nodes, async persistence, single message deliveries, config changes, force closes, blocks, restarts of the sender from its latest monitors and any earlier manager snapshot) judged by the property's statement on the real event stream, list_recent_payments, channels and monitors.",
+    "text": "Coq theorems, by induction over ALL operation lists and interleavings of payment ids, about a transliterated model of OutboundPayments (per entry lifetime at most one of PaymentSent|PaymentFailed, never contradicted, PaymentSent only from a claim with that preimage and with the entry's amount/fee, PaymentFailed only if no claim hit the entry, drained payments terminate, duplicate ids refused, removal only by PaymentFailed or the idempotency timeout, Fulfilled snapshots never fail after restart, a path whose send returned Ok or MonitorUpdateInProgress keeps its part, no PaymentFailed while a part is pending, PaymentSent's fee is the sum of the fees of the parts pending at the claim - also after an abandonment and after restarts that re-insert tracked HTLCs); the model is tied to the code on every run by op-for-op differential execution of the real OutboundPayments (send results Ok / hard error / MonitorUpdateInProgress mixed), by scripted end-to-end scenarios and by a seeded random scheduler on real ChannelManagers and ChannelMonitors (2-4 nodes, async persistence, single message deliveries, config changes, force closes, blocks, restarts of the sender from its latest monitors and any earlier manager snapshot) judged by the property's statement on the real event stream, list_recent_payments, channels and monitors.",
     "note": "Proved on the hand model; OutboundPayments validated by functional correspondence (not proved equal). Channel/monitor guarantees (an HTLC is claimed or failed, never both; preimage checked against the hash in channel.rs; monitors re-report only unresolved HTLCs) are hypotheses validated end-to-end only; the scheduler tier found three classes where they fail on the unchanged tree (known findings C03:stale-manager-fails-settled-payment, C03:stale-manager-loses-handled-resolution, C03:held-failure-dropped-on-close). Retry::Timeout, BOLT12/static-invoice states, blinded/trampoline paths, event completion actions are not modelled.",
     "technique": "machine-checked proof in Coq (induction over operation lists with a per-id scanner invariant) + op-for-op differential correspondence + end-to-end judge",
 }
@@ -425,8 +425,11 @@ class Judge:
         state = res["state"][:-1] if res["state"] else []
         before = self.prev_state
 
-        def bad(msg):
-            self.fails.append({"op_index": idx, "op": impl_line(op), "why": msg})
+        def bad(msg, cls=None):
+            f = {"op_index": idx, "op": impl_line(op), "why": msg}
+            if cls:
+                f["cls"] = cls
+            self.fails.append(f)
 
         if res.get("panic"):
             bad("the implementation panicked (an assertion of the library fired)")
@@ -511,8 +514,15 @@ class Judge:
                     true_fee = sum(h["fee"] for h in self.ht.values()
                                    if h["id"] == pid and h["life"] == self.lifeno.get(pid, 0) and h["flight"])
                     if o[4] >= 0 and o[4] != true_fee:
-                        bad(("[entry kind %s] " % (rb[1] if rb is not None else "?")) + "PaymentSent: fee_paid_msat %d, but the fees of the parts actually in flight or settled for this payment sum to %d "
-                            "(the sender's balance falls by amount + %d)" % (o[4], true_fee, true_fee))
+                        if rb is not None and rb[1] == 2:
+                            # an Abandoned entry keeps the fee total it had when it was abandoned; parts that
+                            # fail afterwards are removed without being subtracted (class of its own)
+                            bad("PaymentSent for a payment that had been abandoned: fee_paid_msat %d, but the fees of the parts actually in flight or settled sum to %d: "
+                                "the fees of parts that FAILED after the payment was abandoned are still counted (the sender's balance falls by amount + %d)"
+                                % (o[4], true_fee, true_fee), cls="abandoned_fee")
+                        else:
+                            bad("PaymentSent: fee_paid_msat %d, but the fees of the parts actually in flight or settled for this payment sum to %d "
+                                "(the sender's balance falls by amount + %d)" % (o[4], true_fee, true_fee))
             elif t == 2:
                 pid = o[1]
                 lf = self.life.get(pid)
@@ -650,6 +660,25 @@ def shrink(ctx, ops, idem, budget=60):
     return cur, f
 
 
+# op-level sequences that run first in every check
+DIRECTED_OPS = [
+    # a payment is abandoned with two parts in flight, one of them fails, the other is claimed
+    ("abandoned_then_part_fails_then_claimed", [
+        {"k": "send", "id": 4, "hash": 10, "retry": 0, "amt": 242858, "mf": None, "answers": [(0, [(2256, 3, 1), (1, 2, 0), (406, 4, 0)])]},
+        {"k": "fail", "sp": 3, "mode": ("G", 40), "perm": True, "probe": False},
+        {"k": "claim", "sp": 2, "pre": 10, "onchain": False}]),
+    # restarts with an up-to-date manager: the monitor of a closed channel re-reports a tracked HTLC three times
+    ("tracked_htlc_reinserted_on_startup", [
+        {"k": "send", "id": 1, "hash": 11, "retry": 2, "amt": 1000000, "mf": None, "answers": [(0, [(1000, 2, 0)])]},
+        {"k": "startup", "sp": 1}, {"k": "startup", "sp": 1}, {"k": "startup", "sp": 1},
+        {"k": "claim", "sp": 1, "pre": 11, "onchain": True}]),
+    ("tracked_htlcs_reinserted_on_startup_mpp", [
+        {"k": "send", "id": 2, "hash": 12, "retry": 1, "amt": 3000000, "mf": None, "answers": [(0, [(700, 3, 0), (1300, 2, 2)])]},
+        {"k": "startup", "sp": 2}, {"k": "startup", "sp": 1}, {"k": "startup", "sp": 2},
+        {"k": "claim", "sp": 2, "pre": 12, "onchain": False}, {"k": "claim", "sp": 1, "pre": 12, "onchain": True}]),
+]
+
+
 def functional(ctx, model_ok):
     rng = ctx.rng.fork("outbound-functional")
     nseq, nops = (160, 60) if ctx.tier == "quick" else (2000, 80)
@@ -663,9 +692,19 @@ def functional(ctx, model_ok):
         idem = int(re.search(r"IDEMPOTENCY_TIMEOUT_TICKS : Z := (\d+)", open(os.path.join(core.COQ, "Gen", "ConstsC03.v")).read()).group(1))
     except Exception:
         idem = 7
-    for s in range(nseq):
-        g = Gen(rng.fork("seq%d" % s), ctx.tier)
-        ops, results, fails = run_impl_sequence(ctx, g, nops, idem)
+    known = {}
+    ctx.c03_known_op = known
+    for s in range(-len(DIRECTED_OPS), nseq):
+        if s < 0:
+            dops = DIRECTED_OPS[s + len(DIRECTED_OPS)][1]
+            ops, results, fails = run_impl_sequence(ctx, list(dops), len(dops), idem)
+        else:
+            g = Gen(rng.fork("seq%d" % s), ctx.tier)
+            ops, results, fails = run_impl_sequence(ctx, g, nops, idem)
+        for f in fails:
+            if f.get("cls") and f["cls"] not in known:
+                known[f["cls"]] = (s, ops, [f])
+        fails = [f for f in fails if not f.get("cls")]
         seqs.append((ops, results))
         for o in ops:
             kinds[o["k"]] = kinds.get(o["k"], 0) + 1
@@ -674,7 +713,7 @@ def functional(ctx, model_ok):
                 evkinds[o[0]] = evkinds.get(o[0], 0) + 1
         if fails and len(judge_fails) < 3:
             judge_fails.append((s, ops, fails))
-    ctx.coverage["functional_sequences"] = nseq
+    ctx.coverage["functional_sequences"] = len(seqs)
     ctx.coverage["functional_ops"] = sum(len(o) for o, _ in seqs)
     ctx.coverage["op_kind_histogram"] = kinds
     names = {1: "PaymentSent", 2: "PaymentFailed", 3: "PaymentPathSuccessful", 4: "PaymentPathFailed", 5: "ProbeSuccessful",
@@ -759,6 +798,9 @@ LOST_KEY = "C03:stale-manager-loses-handled-resolution"
 # in monitor_pending_failures; the channel is closed before the update completes and force_shutdown drops it
 HELD_KEY = "C03:held-failure-dropped-on-close"
 CLASS_KEYS = {"stale": STALE_KEY, "lost": LOST_KEY, "heldfail": HELD_KEY}
+# op level: an Abandoned entry keeps the fee total of the moment it was abandoned; parts failing afterwards are removed
+# without being subtracted (remove() only accounts for Retryable), so a late PaymentSent over-reports fee_paid_msat
+OP_CLASS_KEYS = {"abandoned_fee": "C03:abandoned-payment-fee-counts-failed-parts"}
 
 DIRECTED = {
     # one path behind an in-progress monitor update, the other path's first hop gone (both orders)
@@ -793,10 +835,46 @@ DIRECTED = {
     "finding_stale_manager_loses_handled_part_failure": ["cfg 2 1 0 1 0", "sendmpp 2442", "fclose 0 3", "snapshot", "blocks 6", "reload 1000"],
     "finding_stale_manager_loses_handled_terminal_event": ["cfg 0 1 0 0 0", "send 5000 0", "pump", "fclose 0 0", "snapshot", "claim", "blocks 8", "reload 1000"],
     "finding_held_failure_dropped_on_close": ["cfg 0 1 0 0 0", "send 5000 0", "pump", "fail", "persist 0 1", "pump", "complete 0", "pump", "fclose 0 0"],
+    # restarts from a fully up-to-date manager with the first-hop channel closed and the HTLC unresolved (the monitor
+    # re-reports HTLCs the manager tracks), then an on-chain claim: PaymentSent's fee against what was committed
+    "uptodate_reload_closed_first_hop_onchain_claim": ["cfg 1 1 0 0 0", "send 5000 0", "pump", "disconnect 0 1", "fclose 0 0", "snapshot", "reload 1000", "claim", "pump",
+                                                       "mine", "blocks 2", "mine", "blocks 8", "pump"],
+    "uptodate_reload_twice_closed_first_hop_onchain_claim": ["cfg 1 1 0 1 0", "send 7000 0", "pump", "disconnect 0 1", "fclose 0 0", "snapshot", "reload 1000", "snapshot", "reload 1000",
+                                                             "claim", "pump", "mine", "blocks 2", "mine", "blocks 8", "pump"],
+    "uptodate_reload_closed_first_hop_onchain_claim_mpp": ["cfg 2 1 0 2 0", "sendmpp 3000", "pump", "disconnect 0 1", "fclose 0 0", "snapshot", "reload 1000", "reconnect 0 2", "claim", "pump",
+                                                           "mine", "blocks 2", "mine", "blocks 8", "pump"],
     # plain restarts
     "reload_with_payment_in_flight": ["cfg 1 1 0 0 0", "send 5000 1", "snapshot", "pump", "freeze", "reload 1", "reconnect 0 1", "pump", "claim", "pump"],
     "reload_after_onchain_claim": ["cfg 0 1 0 0 0", "send 5000 0", "pump", "snapshot", "disconnect 0 1", "fclose 1 0", "claim", "freeze", "mine", "blocks 3", "mine", "reload 1", "pump"],
 }
+
+
+def dance_families():
+    """The removal of an HTLC (fail or fulfil) takes four messages between the sender and its peer: their
+    update + commitment_signed, our revoke_and_ack, our commitment_signed, their revoke_and_ack. The sender's manager
+    is persisted at EVERY boundary and restarted with the monitors of EVERY later boundary; single part (pair) and
+    two parts (diamond, the dance on the channel to node 1, the other part untouched or resolved first)."""
+    fams = {}
+    for kind in ("fail", "claim"):
+        for multi in (0, 1, 2):
+            if multi == 0:
+                base = ["cfg 0 1 0 0 0", "send 5000 0", "pump", kind]
+                tail = ["reload 1000", "reconnect 0 1", "pump"]
+            else:
+                base = ["cfg 2 1 0 %d 0" % multi, "sendmpp 3000", "pump", kind, "settle 3 1", "settle 3 2"] + (["settle 2 0"] if multi == 2 else [])
+                tail = ["reload 1000", "reconnect 0 1", "reconnect 0 2", "pump"]
+            steps = ["deliverto 1 0", "deliverto 0 1", "deliverto 0 1", "deliverto 1 0"]
+            for i in range(4):
+                for j in range(i + 1, 5):
+                    mid = steps[i:j]
+                    variants = [(0, mid)]
+                    if mid[-1] == "deliverto 1 0":
+                        # ... the last message reaches the sender, which goes down before it is polled again
+                        variants.append((1, mid[:-1] + ["freeze", mid[-1]]))
+                    for frz, m in variants:
+                        name = "dance_%s_%s_snap%d_mon%d%s" % (kind, ["single", "mpp", "mpp_other_first"][multi], i, j, "_unpolled" if frz else "")
+                        fams[name] = base + steps[:i] + ["snapshot"] + m + tail
+    return fams
 
 
 def motif(rng, topo, legacy, n):
@@ -956,7 +1034,7 @@ def sched_tier(ctx):
     from concurrent.futures import ThreadPoolExecutor
     rng = ctx.rng.fork("sched")
     n, steps = (150, 60) if ctx.tier == "quick" else (10000, 60)
-    jobs = [(name, lines) for name, lines in DIRECTED.items()]
+    jobs = [(name, lines) for name, lines in DIRECTED.items()] + sorted(dance_families().items())
     for i in range(n):
         r = rng.fork("s%d" % i)
         jobs.append(("random", gen_schedule(r, 10 + r.below(steps - 9))))
@@ -1037,6 +1115,11 @@ def run(ctx):
         ctx.violation("C03 violated by the implementation: " + f["why"],
                       {"broken": "implementation judge (h_outbound)", "ops": [impl_line(o) for o in small], "ops_struct": small, "failure": f,
                        "replay_cmd": "printf 'reset\\n<ops, one per line>\\n' | %s" % ctx.bin_path("h_outbound")}, True)
+    for cls, (sq, ops, fails) in sorted(getattr(ctx, "c03_known_op", {}).items()):
+        ctx.violation("C03 (operation level): " + fails[0]["why"],
+                      {"broken": "implementation judge (h_outbound), class '%s'" % cls, "ops": [impl_line(o) for o in ops[:fails[0]["op_index"] + 1]],
+                       "ops_struct": ops[:fails[0]["op_index"] + 1], "failure": fails[0],
+                       "replay_cmd": "printf 'reset\\n<ops, one per line>\\n' | %s" % ctx.bin_path("h_outbound")}, True, key=OP_CLASS_KEYS[cls])
     if e2e_fails:
         for f in e2e_fails[:3]:
             ctx.violation("end-to-end payment scenario violates C03: " + f.get("why", ""),
